@@ -341,8 +341,8 @@ Qed.
    stop sits at position 2; a second stop would push it to position 3. *)
 Definition ex19_inp : input :=
   mkInput [mkUAtom UPos 2 false false]
-          [mkIStop [(-1)%Z] 10%Z [] None 100%Z []; mkIStop [(-1)%Z] 10%Z [] None 100%Z []]
-          [mkIVehicle (Some [2%Z]) [0%Z] 0%Z None None None None None [] 0%Z true true]
+          [mkIStop [(-1)%Z] 10%Z [] None 100%Z [] None 0%Z 0%Z; mkIStop [(-1)%Z] 10%Z [] None 100%Z [] None 0%Z 0%Z]
+          [mkIVehicle (Some [2%Z]) [0%Z] 0%Z None None None None None [] 0%Z true true 0%Z 0%Z]
           [mkIUnit [0%nat] []; mkIUnit [1%nat] []]
           ex_mat ex_mat 1 ex_opts [].
 Definition ex19_s0 : state :=
